@@ -25,7 +25,7 @@ PROPS = {
                 relevant=lambda e: e["e"] in ("fault", "conn_end") or (e["e"] == "attempt_end" and e.get("res") != "ok")),
     "C03": dict(stages=[stages.l1_client], title="QoS 2 sender discipline, faithful retransmission", prefixes=["C03_"], families=TRACE_FAMILIES,
                 relevant=lambda e: e["e"] == "c_pkt" and e.get("type") == "PUBLISH" and e.get("dup") == 1),
-    "C04": dict(title="inbound acknowledgement and delivery", prefixes=["C04_"], families=TRACE_FAMILIES,
+    "C04": dict(stages=[stages.l1_recv], title="inbound acknowledgement and delivery", prefixes=["C04_"], families=TRACE_FAMILIES,
                 relevant=lambda e: e["e"] == "b_send" and e.get("type") == "PUBLISH" and e.get("qos", 0) > 0),
     "C05": dict(title="exactly-once non-re-entrant completion; cancel drains", prefixes=["C05_"], families=TRACE_FAMILIES,
                 relevant=lambda e: e["e"] in ("cancel_all", "destroy", "cancel_op") or (e["e"] == "call" and e.get("kind") == "disc")),
